@@ -15,6 +15,7 @@ import (
 	"os"
 	"os/exec"
 	"path/filepath"
+	"regexp"
 	"sort"
 	"strings"
 	"time"
@@ -235,6 +236,49 @@ func c20Mutate(r *rand.Rand, seed []byte, maxLen int, other []byte) []byte {
 
 var grbLengths = []uint64{0, 1, 2, 1 << 16, 1<<16 + 1, 1 << 20, 1 << 31, 1 << 32, 1 << 40, 1 << 62, 1 << 63, 1<<64 - 1}
 
+var astIDRe = regexp.MustCompile(`[0-9a-f]{8}-[0-9a-f]{4}-[0-9a-f]{4}-[0-9a-f]{4}-[0-9a-f]{12}`)
+
+// grbSpliceIDs overwrites 1-3 node ids of a stored stream with other ids of the same stream
+// (references to the node itself, to an ancestor, to a node of another type, duplicate ids).
+func grbSpliceIDs(r *rand.Rand, stream []byte) []byte {
+	b := append([]byte(nil), stream...)
+	locs := astIDRe.FindAllIndex(b, -1)
+	if len(locs) < 2 {
+		return b
+	}
+	if r.Intn(10) < 7 {
+		// a node's own id is written in front of the ids it refers to: copy an id over one of
+		// the next three (self reference), nothing else changes
+		k := r.Intn(len(locs) - 1)
+		i, j := locs[min(len(locs)-1, k+1+r.Intn(3))], locs[k]
+		copy(b[i[0]:i[1]], stream[j[0]:j[1]])
+		return b
+	}
+	for e := 1 + r.Intn(3); e > 0; e-- {
+		i, j := locs[r.Intn(len(locs))], locs[r.Intn(len(locs))]
+		copy(b[i[0]:i[1]], stream[j[0]:j[1]])
+	}
+	return b
+}
+
+// c20EdgeInputs: encodings and emptiness around a valid text (byte order marks, blank input,
+// NUL bytes), the classic ways a text file reaches a loader in an unexpected shape.
+func c20EdgeInputs(seed []byte) [][]byte {
+	bom := "\xef\xbb\xbf"
+	var out [][]byte
+	for _, s := range []string{"", " ", "\n", "\r\n\t ", bom, bom + "\n", bom + "\r\n", " " + bom, "\n" + bom + "\n\t", bom + bom, bom + " " + bom,
+		"\xff\xfe", "\xfe\xff", "\xff\xfe\x00\x00", "\x00", "\x00\x00\x00", bom + "x", bom + "{", bom + "[", bom + "[]", bom + "{}", bom + "\"", "\xef\xbb", "\xef"} {
+		out = append(out, []byte(s))
+	}
+	out = append(out, append([]byte(bom), seed...), append(append([]byte(nil), seed...), bom...), append([]byte(bom+"\n "), seed...))
+	for _, k := range []int{1, 2, 3, 4, 5, 8} {
+		if k < len(seed) {
+			out = append(out, append([]byte(bom), seed[:k]...))
+		}
+	}
+	return out
+}
+
 func c20Inputs(loader string, r *rand.Rand, n int) [][]byte {
 	maxLen := 4096
 	if loader == "jsonfact" || loader == "grb" {
@@ -242,6 +286,9 @@ func c20Inputs(loader string, r *rand.Rand, n int) [][]byte {
 	}
 	seeds := c20Seeds(loader, r)
 	var out [][]byte
+	if loader != "grb" && len(seeds) > 0 {
+		out = append(out, c20EdgeInputs(seeds[r.Intn(len(seeds))])...)
+	}
 	// GRB: edits of 8-byte length / count fields
 	var grbStream []byte
 	var grbOffs []int
@@ -258,6 +305,8 @@ func c20Inputs(loader string, r *rand.Rand, n int) [][]byte {
 			out = append(out, b)
 		case k == 1 && len(seeds) > 0:
 			out = append(out, seeds[r.Intn(len(seeds))]) // valid seed as is
+		case k >= 8 && loader == "grb" && len(grbStream) > 0 && len(grbStream) <= maxLen:
+			out = append(out, grbSpliceIDs(r, grbStream))
 		case k <= 4 && loader == "grb" && len(grbOffs) > 0 && len(grbStream) <= maxLen:
 			b := append([]byte(nil), grbStream...)
 			off := grbOffs[r.Intn(len(grbOffs))]
